@@ -26,7 +26,7 @@ U5 = 'TRUSTED std contract through a wrapper: Verus cannot attach a specificatio
 
 INV = '''
     n == nfa, g == g_nfa(n), gr_wf(g), sub_wf(n), n_off(n) == 0, tt == n.pattern.token_type,
-    reps_ok(g, reps), reps.len() <= n_len(n), g.bound == n_len(n), map_ok(g, state_map@, reps),
+    reps_ok(g, reps), reps.len() <= g.bound, map_ok(g, state_map@, reps),
 '''
 
 from_nfa = Fn(F_DFA, 'From<Nfa> for CompiledDfa', 'from', ret='r', rename='from__nfa', impl_as='CompiledDfa', qual_as='CompiledDfa', props=P,
@@ -74,7 +74,7 @@ proof { assert(queue_ok(queue@, 0, 1)); lemma_worklist_init(g, reps); assert(tra
 ''' + INV + '''
         p == reps.len(),
         trans_sound(g, transitions@, reps, p), trans_complete(g, transitions@, reps, p), acc_ok(g, accepting_states@, transitions@, reps),
-    decreases n_len(n) + 1 - reps.len(), queue@.len()
+    decreases g.bound + 1 - reps.len(), queue@.len()
 {
     let ghost q_in = queue@;
     let Some(current_state) = queue.pop_front() else { break };
@@ -345,18 +345,245 @@ proof {
     }
 }
 '''),
-        Replace('E6', 'Minimizer::minimize(Self { $fields })', '''{
-let __d0 = Self { $fields };
+        Ins('before', 'Minimizer::minimize(Self', '''
+let ghost st_fin = states@;
+let ghost es_fin = end_states@;
+''', label='from_nfa.final'),
+        Tail('''
 proof {
-    assert(__d0.terminal_ids@.len() == 1);
-    assert(__d0.terminal_ids@[0] == TerminalID(tt as u32));
-    assert(__d0.terminal_ids@ =~= seq![TerminalID(tt as u32)]);
+    let d0 = choose|d0: CompiledDfa| __res == #[trigger] spec_minimize(d0) && d0.states@ == st_fin && d0.end_states@ == es_fin
+        && d0.terminal_ids@.len() == 1 && d0.terminal_ids@[0] == TerminalID(tt as u32) && d0.lookaheads@.len() == 0;
+    assert(d0.terminal_ids@ =~= seq![TerminalID(tt as u32)]);
     lemma_reps_nodup(g, reps);
-    lemma_elim_final(g, __d0, reps, tset, acc);
+    lemma_elim_final(g, d0, reps, tset, acc);
 }
-Minimizer::minimize(__d0)
-}''', why='argument let-bound so that ghost code can name the automaton handed to the minimizer'),
+'''),
     ])
+
+# ---------------------------------------------------------------- From<MultiPatternNfa>: the same worklist over g_mp; edits derived from the Nfa version
+import copy
+MP_SUBST = [
+    ('n == nfa, g == g_nfa(n), gr_wf(g), sub_wf(n), n_off(n) == 0, tt == n.pattern.token_type,', 'm == mp_nfa, g == g_mp(m), gr_wf(g), mp_wf(m),'),
+    ('from_nfa.', 'from_mp.'),
+]
+def _sub(t):
+    if t is None:
+        return t
+    for a, b in MP_SUBST:
+        t = t.replace(a, b)
+    return t
+def _variant(e):
+    e2 = copy.copy(e)
+    for attr in ('text', 'template', 'spec', 'pre', 'body_pre', 'label'):
+        if hasattr(e2, attr) and isinstance(getattr(e2, attr), str):
+            setattr(e2, attr, _sub(getattr(e2, attr)))
+    return e2
+
+MP_REPLACED = {}   # label or pattern of an Nfa-version edit -> replacement edit(s) for the union
+def _key(e):
+    return getattr(e, 'label', None) or getattr(e, 'pattern', None)
+
+mp_edits = []
+for e in from_nfa.edits:
+    k = _key(e)
+    pat = getattr(e, 'pattern', None)
+    if isinstance(e, Ins) and e.where == 'body_start':
+        mp_edits.append(Ins('body_start', None, """
+broadcast use axiom_fx_valid, axiom_set_key_model, axiom_triple_key_model, axiom_stateid_cmp;
+let ghost m = mp_nfa;
+let ghost g = g_mp(mp_nfa);
+proof { lemma_g_mp_wf(m); }
+let ghost mut reps: Seq<StateID> = seq![StateID(0)];
+let ghost mut p: int = 0;
+"""))
+    elif pat == 'state_map.insert(epsilon_closure.clone(), current_state);':
+        mp_edits.append(Ins('after_stmt', 'state_map.insert(epsilon_closure.clone(), 0.into());', """
+proof {
+    assert(key_is(g, epsilon_closure@, 0));
+    assert(reps_ok(g, reps)) by { reveal(reps_distinct); }
+    let k0 = choose|k0: BTreeSet<StateID>| state_map@ == Map::<BTreeSet<StateID>, StateSetID>::empty().insert(k0, StateSetID(0)) && k0@ == epsilon_closure@;
+    assert(map_ok(g, state_map@, reps)) by {
+        assert(state_map@.contains_key(k0) && state_map@[k0].0 == 0);
+        assert(has_key_for(state_map@, 0));
+    }
+    lemma_reps_nodup(g, reps);
+}
+"""))
+    elif pat == 'queue.push_back(current_state);':
+        mp_edits.append(Ins('after_stmt', 'queue.push_back(StateSetID::new(0));', e.text))
+    elif isinstance(e, Replace) and e.pattern.startswith('let target_states = nfa.get_match_transitions'):
+        mp_edits.append(Replace('E6+U5', 'let target_states = mp_nfa.get_match_transitions(epsilon_closure.iter().cloned());', """
+let __bi = epsilon_closure.iter();
+let ghost ec_it = __bi.remaining();
+let __ci = verif_cloned(__bi);
+let ghost ss = __ci.remaining();
+proof {
+    assert(ec_it.unref().to_set() == epsilon_closure@);
+    assert(ss == ec_it.unref());
+    assert forall|x: StateID| #[trigger] epsilon_closure@.contains(x) <==> ss.contains(x) by {
+        assert(ec_it.unref().to_set().contains(x) <==> ec_it.unref().contains(x));
+    }
+}
+let target_states = mp_nfa.get_match_transitions(__ci);
+""", why=e.why))
+    elif k == 'from_nfa.targets':
+        mp_edits.append(Ins('after_stmt', 'let target_states = $_;', """
+let ghost ts = target_states@;
+proof {
+    lemma_mp_mt_fires(m, ss, epsilon_closure@, reps[c].0 as int);
+    assert forall|cc: CharClassID, t: StateID| #[trigger] ts.contains((cc, t)) <==> fires(g, reps[c].0 as int, cc, t) by {
+        assert(ts.contains((cc, t)) <==> mp_mt_from(m, ss, cc, t));
+    }
+}
+""", label='from_mp.targets'))
+    elif pat == 'let epsilon_closure = BTreeSet::from_iter(nfa.epsilon_closure(target_state));':
+        mp_edits.append(Ins('after_stmt', 'let epsilon_closure = BTreeSet::from_iter(mp_nfa.epsilon_closure(target_state));', e.text))
+    elif k == 'from_nfa.new_state_id':
+        mp_edits.append(Ins('after_stmt', 'let new_state_id = $_;', """
+proof {
+    assert(new_state_id.0 < reps.len());
+    assert(same_closure(g, target_state.0 as int, reps[new_state_id.0 as int].0 as int));
+    lemma_acc_same(g, target_state.0 as int, reps[new_state_id.0 as int].0 as int);
+    assert(reps[c] == reps_in[c]);
+}
+let ghost acc_mid = accepting_states@;
+""", label='from_mp.new_state_id'))
+        # the owner of the target: find_nfa cannot fail, the closure key holds an end state iff the owner's pattern accepts
+        mp_edits.append(Replace('E6', 'let target_nfa = mp_nfa.find_nfa(target_state).expect("NFA not found");', """
+let __fn = mp_nfa.find_nfa(target_state);
+let ghost own: int = choose|own: int| #[trigger] owner(m, target_state.0 as int, own);
+proof {
+    assert(mp_ok(m, target_state.0 as int));
+    assert(target_state.0 != 0) by {
+        // a target is a state of some pattern NFA, and those start at 1
+        reveal(fires);
+        let s = choose|s: int| (g.reach)(reps[c].0 as int, s) && #[trigger] (g.tr)(s, cc, target_state);
+        lemma_mp_target_nonzero(m, s, cc, target_state);
+    }
+    assert(owner(m, target_state.0 as int, own));
+    assert forall|jj: int| 0 <= jj < mp_len(m) implies (contains_id(#[trigger] m.nfas@[jj], target_state) <==> owner(m, target_state.0 as int, jj)) by { lemma_contains_id(m.nfas@[jj], target_state); }
+    match __fn {
+        Some(f) => {
+            let i = choose|i: int| 0 <= i < m.nfas@.len() && *f == #[trigger] m.nfas@[i] && contains_id(*f, target_state);
+            lemma_owner_unique(m, target_state.0 as int, i, own);
+        }
+        None => { assert(!contains_id(m.nfas@[own], target_state)); }
+    }
+    lemma_mp_acc(m, target_state.0 as int, own);
+    lemma_mp_any_end(m, epsilon_closure@, target_state.0 as int, own);
+}
+let target_nfa = __fn.expect("NFA not found");
+proof { assert(*target_nfa == m.nfas@[own]); }
+""", why='method chain split into lets in evaluation order (E6)'))
+        mp_edits.append(Replace('E11', 'epsilon_closure.iter().any(|s| $body)', """{
+let mut __any = false;
+let mut __it0 = epsilon_closure.iter();
+let ghost rem = __it0.remaining();
+proof {
+    assert(rem.unref().to_set() == epsilon_closure@);
+    assert forall|x: StateID| #[trigger] epsilon_closure@.contains(x) <==> rem.unref().contains(x) by {
+        assert(rem.unref().to_set().contains(x) <==> rem.unref().contains(x));
+    }
+}
+loop
+    invariant_except_break
+        __it0.obeys_prophetic_iter_laws(), __it0.decrease() is Some, !__any,
+        __it0.remaining().len() <= rem.len(),
+        forall|q: int| 0 <= q < __it0.remaining().len() ==> #[trigger] __it0.remaining()[q] == rem[rem.len() - __it0.remaining().len() + q],
+        forall|j: int| 0 <= j < rem.len() - __it0.remaining().len() ==> !is_end(m, *#[trigger] rem[j]),
+    ensures
+        __any == exists|x: StateID| epsilon_closure@.contains(x) && #[trigger] is_end(m, x),
+    decreases __it0.decrease()->0
+{
+    proof {
+        if __it0.remaining().len() == 0 {
+            assert forall|x: StateID| epsilon_closure@.contains(x) implies !#[trigger] is_end(m, x) by {
+                assert(rem.unref().contains(x));
+                let j = choose|j: int| 0 <= j < rem.unref().len() && rem.unref()[j] == x;
+                assert(*rem[j] == x);
+            }
+        }
+        assert(true);
+    }
+    let ghost pos = rem.len() - __it0.remaining().len();
+    let Some(s) = __it0.next() else { break };
+    proof { assert(s == rem[pos]); assert(rem.unref()[pos] == *s); assert(rem.unref().contains(*s)); assert(epsilon_closure@.contains(*s)); }
+    if $body { proof { assert(is_end(m, *s)); } __any = true; break; }
+}
+__any
+}""", why='iter().any(|x| p(x)) is the short-circuiting loop (std definition); the predicate body is kept verbatim'))
+    elif k == 'from_nfa.insert_edge':
+        mp_edits.append(Ins('after_stmt', 'transitions.insert($_);', """
+proof {
+    let e0 = (old_state_id, cc, new_state_id);
+    assert(old_state_id == StateSetID(c as u32));
+    let t_mid = t_in;
+    let a0 = (g.acc)(reps[new_state_id.0 as int].0 as int);
+    assert(a0 is Some ==> a0 == Some(m.nfas@[own].pattern.token_type));
+    assert(accepting_states@ == (if a0 is Some && !acc_mid.contains((new_state_id, a0->0)) { acc_mid.push((new_state_id, a0->0)) } else { acc_mid }));
+    lemma_acc_step(g, acc_mid, accepting_states@, t_mid, reps, e0);
+    lemma_insert_edge(g, t_mid, reps, c, cc, target_state, new_state_id, c);
+    assert(transitions@ == t_mid.insert(e0));
+    assert forall|kk: int| 0 <= kk < m0 + 1 implies edge_present(g, transitions@, reps, c, (#[trigger] ts[kk]).0, ts[kk].1) by {
+        if kk < m0 { assert(edge_present(g, t_mid, reps, c, ts[kk].0, ts[kk].1)); }
+    }
+}
+""", label='from_mp.insert_edge'))
+    elif k == 'from_nfa.final':
+        mp_edits.append(_variant(e))
+        mp_edits.append(Replace('U6', 'vec![mp_nfa.patterns.iter().map(|p| p.pattern()).collect()]', 'vec![verif_patterns_text(&mp_nfa.patterns)]',
+                                why='TRUSTED CUT: the `patterns` field (debug text: concatenation of the pattern strings) is produced by an opaque function'))
+        mp_edits.append(Replace('E11', 'mp_nfa.patterns.iter().map(|p| $body).collect()', """{
+    let mut __out: Vec<TerminalID> = Vec::new();
+    let mut __it9 = mp_nfa.patterns.iter();
+    let ghost prem = __it9.remaining();
+    proof {
+        assert(prem.len() == mp_nfa.patterns@.len());
+        assert(forall|i: int| 0 <= i < prem.len() ==> *#[trigger] prem[i] == mp_nfa.patterns@[i]);
+    }
+    loop
+        invariant
+            __it9.obeys_prophetic_iter_laws(), __it9.decrease() is Some,
+            prem.len() == mp_nfa.patterns@.len(), forall|i: int| 0 <= i < prem.len() ==> *#[trigger] prem[i] == mp_nfa.patterns@[i],
+            __it9.remaining().len() <= prem.len(),
+            forall|q: int| 0 <= q < __it9.remaining().len() ==> #[trigger] __it9.remaining()[q] == prem[prem.len() - __it9.remaining().len() + q],
+            __out@.len() == prem.len() - __it9.remaining().len(),
+            forall|i: int| 0 <= i < __out@.len() ==> (#[trigger] __out@[i]) == TerminalID(mp_nfa.patterns@[i].token_type as u32),
+        ensures __it9.remaining().len() == 0,
+        decreases __it9.decrease()->0
+    {
+        let ghost pos = prem.len() - __it9.remaining().len();
+        let Some(p) = __it9.next() else { break };
+        proof { assert(*p == mp_nfa.patterns@[pos]); }
+        let __x: TerminalID = $body;
+        __out.push(__x);
+    }
+    __out
+}""", occ=2, why='iter().map(|p| f(p)).collect::<Vec<_>>() is the loop pushing f(p) for every element in order (std definitions); the closure body is kept verbatim'))
+    elif isinstance(e, Tail):
+        mp_edits.append(Tail("""
+proof {
+    let tids = Seq::new(mp_nfa.patterns@.len(), |i: int| TerminalID(mp_nfa.patterns@[i].token_type as u32));
+    let d0 = choose|d0: CompiledDfa| __res == #[trigger] spec_minimize(d0) && d0.states@ == st_fin && d0.end_states@ == es_fin
+        && d0.terminal_ids@ =~= tids && d0.lookaheads@.len() == 0;
+    lemma_reps_nodup(g, reps);
+    lemma_elim_final(g, d0, reps, tset, acc);
+}
+"""))
+    else:
+        mp_edits.append(_variant(e))
+
+from_mp = Fn(F_DFA, 'From<MultiPatternNfa> for CompiledDfa', 'from', ret='r', rename='from__mp', impl_as='CompiledDfa', qual_as='CompiledDfa', props=P,
+    attrs='#[verifier::loop_isolation(false)] #[verifier::allow_complex_invariants]',
+    spec="""
+requires mp_wf(mp_nfa)
+ensures
+    // the automaton handed to the minimizer is the epsilon-elimination automaton of the union; token types in pattern order
+    exists|d0: CompiledDfa, reps: Seq<StateID>| elim_ok(g_mp(mp_nfa), d0, reps)
+        && d0.terminal_ids@ == Seq::new(mp_nfa.patterns@.len(), |i: int| TerminalID(mp_nfa.patterns@[i].token_type as u32))
+        && r == spec_minimize(d0),
+""",
+    edits=mp_edits)
 
 UNIT = dict(
     name='u_elim',
@@ -419,10 +646,14 @@ pub assume_specification<T: PartialEq>[ <[T]>::contains ](s: &[T], x: &T) -> (r:
         RawFile('elim_spec.rs'),
         RawFile('elim_gen.rs'),
         RawFile('elim_nfa.rs'),
+        RawFile('elim_mp.rs'),
         C(sub.epsilon_closure), C(sub.get_match_transitions),
+        C(sub.mp_epsilon_closure), C(sub.mp_get_match_transitions), C(sub.mp_find_nfa), C(sub.mp_is_accepting),
+        Fn(F_NFA, 'Nfa', 'terminal_id', ret='r', props=P, spec='ensures r == self.pattern.token_type'),
         Fn(F_PAT, 'Pattern', 'pattern', ret='r', props=P, spec='ensures r@ == self.pattern@'),
         Fn(F_PAT, 'Pattern', 'terminal_id', ret='r', props=P, spec='ensures r == self.token_type'),
         Fn(F_DFA, 'StateData', 'new', ret='r', props=P, spec='ensures r.transitions@.len() == 0'),
         from_nfa,
+        from_mp,
     ],
 )
